@@ -312,9 +312,10 @@ class Interp:
             if cod and f.attr in ("bwrite", "bread", "bpad", "skip") and self.is_stream(first):
                 cid, dt = cod
                 if f.attr == "bwrite":
-                    if len(args) != 2:
+                    val = args[1] if len(args) == 2 else kw.get("data")
+                    if val is None or len(args) > 2:
                         self.err(call, "bwrite arity")
-                    return Field(node=call, codec=cid, dt=dt, role="data", value=self.ev(args[1]))
+                    return Field(node=call, codec=cid, dt=dt, role="data", value=self.ev(val))
                 if f.attr == "bread":
                     n = args[1] if len(args) > 1 else kw.get("n")
                     if n is not None and isinstance(n, ast.Constant) and n.value is None:
@@ -328,15 +329,17 @@ class Interp:
                 k = r[1]
                 if k.name == "BTSString" and f.attr in ("bwrite", "bread"):
                     if f.attr == "bwrite":
-                        if len(args) != 3:
+                        wd = args[1] if len(args) > 1 else kw.get("size")
+                        val = args[2] if len(args) > 2 else kw.get("data")
+                        if wd is None or val is None or len(args) > 3:
                             self.err(call, "BTSString.bwrite arity")
-                        return Str(node=call, width=self.ev(args[1]), value=self.ev(args[2]))
+                        return Str(node=call, width=self.ev(wd), value=self.ev(val))
                     w = args[1] if len(args) > 1 else kw.get("size")
                     enc = args[2] if len(args) > 2 else kw.get("encoding")
                     return Str(node=call, width=self.ev(w), encoding=enc)
                 if k.name == "BTSDate" and f.attr in ("bwrite", "bread"):
                     if f.attr == "bwrite":
-                        return Date(node=call, value=self.ev(args[1]))
+                        return Date(node=call, value=self.ev(args[1] if len(args) > 1 else kw.get("data")))
                     return Date(node=call)
                 if f.attr in ("_build", "bread", "build"):
                     return Sub(node=call, cls=k, meth=f.attr, args=[self.ev(a) for a in args[1:]],
@@ -420,13 +423,15 @@ class Interp:
                 if g.ifs:
                     interp.err(node, "filtered comprehension over the stream is not modelled")
                 body = []
+                # the iterable is evaluated first (its stream reads precede the element's)
+                it_expr = interp.extract(g.iter, out) if interp.mentions_stream(g.iter) else g.iter
                 saved = dict(interp.env)
                 for n_ in ast.walk(g.target):
                     if isinstance(n_, ast.Name):
                         interp.env.pop(n_.id, None)
                 elem = interp.extract(node.elt, body)
                 interp.env = saved
-                rep = interp.make_rep(g.target, g.iter, body, node)
+                rep = interp.make_rep(g.target, it_expr, body, node)
                 rep.listph = interp.fresh()
                 rep.elem = elem
                 out.append(rep)
@@ -537,6 +542,12 @@ class Interp:
                     if hasattr(t, "used"):
                         t.used = False
                     out.append(t)
+                    return
+                # <local object>.<attr>.append(E): the decoder fills a container attribute of the object it is building
+                if isinstance(v.func, ast.Attribute) and v.func.attr == "append" and isinstance(v.func.value, ast.Attribute) and isinstance(v.func.value.value, ast.Name) \
+                        and v.func.value.value.id in self.env and len(v.args) == 1 and not v.keywords and not self.is_stream(v.func.value.value):
+                    arg = self.extract(v.args[0], out) if self.mentions_stream(v.args[0]) else self.ev(v.args[0])
+                    out.append(CallOn(node=st, var=v.func.value.value.id, meth="__append__:" + v.func.value.attr, args=[arg], kwargs={}))
                     return
                 # method call on a local object (reader: d.addSignal(...)); arguments that read the stream are decoded first
                 if isinstance(v.func, ast.Attribute) and isinstance(v.func.value, ast.Name) and not self.is_stream(v.func.value) \
